@@ -100,8 +100,8 @@ theorem compiles_of_need (op : Host) (m : Mem) (hc : Completed op) (h : need op 
 def depth : Host → Nat
   | .seq a b => max (depth a) (depth b)
   | .ifc _ _ _ _ body => depth body
-  | .loop _ _ _ body => 1 + depth body
-  | .loopBody _ _ _ body => 1 + depth body
+  | .loop _ _ _ _ body => 1 + depth body
+  | .loopBody _ _ _ _ body => 1 + depth body
   | .foreach _ _ body => 1 + depth body
   | .loopUntil _ body _ _ cl => 1 + max (depth body) (depth cl)
   | .tryUntil _ body => depth body
@@ -118,8 +118,8 @@ def fdepth : Host → Nat
   | .addF f o _ => max f.depth (Val.fdepth o)
   | .addR _ o _ => Val.fdepth o
   | .ifc _ _ _ _ body => fdepth body
-  | .loop _ _ _ body => fdepth body
-  | .loopBody _ _ _ body => fdepth body
+  | .loop _ _ _ _ body => fdepth body
+  | .loopBody _ _ _ _ body => fdepth body
   | .foreach _ _ body => fdepth body
   | .loopUntil _ body _ _ cl => max (fdepth body) (fdepth cl)
   | .tryUntil _ body => fdepth body
@@ -152,8 +152,8 @@ theorem depth_bound (op : Host) (hc : Completed op) : need op ≤ depth op + (2 
     have := ih hc; have := tmp_le_one a; have := tmp_le_one b
     simp only [need, depth, fdepth]
     split <;> omega
-  | loop s e d body ih => have := ih hc; simp only [need, depth, fdepth]; omega
-  | loopBody s e d body ih => have := ih hc; simp only [need, depth, fdepth]; omega
+  | loop rg s e d body ih => have := ih hc; simp only [need, depth, fdepth]; omega
+  | loopBody rg s e d body ih => have := ih hc; simp only [need, depth, fdepth]; omega
   | foreach a w body ih => have := ih hc; simp only [need, depth, fdepth]; omega
   | loopUntil n body ef ev cl ihb ihc =>
     have := ihb hc.1; have := ihc hc.2; have := tmp_le_one ef
@@ -249,14 +249,14 @@ theorem f17_loop_until_20 :
 example : Completed ifEzOnFuture ∧ Completed loopUntilOnce := by simp [ifEzOnFuture, loopUntilOnce, Completed]
 
 /-- non-vacuity of `long_run_compiles`' hypothesis: a depth-2 operation with a future-indexed future -/
-example : let op : Host := .loop 0 2 1 (.foreach 0 true (.addF (.fut 0 (.lit 0 0)) (.fut (.lit 0 1)) none))
+example : let op : Host := .loop none 0 2 1 (.foreach 0 true (.addF (.fut 0 (.lit 0 0)) (.fut (.lit 0 1)) none))
     Completed op ∧ depth op + (2 + fdepth op) ≤ free Mem.init.active ∧ need op = 4 := by
   refine ⟨by simp [Completed], by decide, by decide⟩
 
 /-- the bound of `need` is attained: 16 nested loops need 16 registers, the 17th level fails -/
 def nest : Nat → Host → Host
   | 0, h => h
-  | n + 1, h => .loop 0 1 1 (nest n h)
+  | n + 1, h => .loop none 0 1 1 (nest n h)
 
 def isOk {α : Type} : Except BuildError α → Bool
   | .ok _ => true
@@ -268,6 +268,30 @@ def isNoReg {α : Type} : Except BuildError α → Bool
 
 theorem need_tight_16 : isOk (emit Mem.init (nest 16 (.qop [] .newFut))) = true
     ∧ isNoReg (emit Mem.init (nest 17 (.qop [] .newFut))) = true := by
+  decide +kernel
+
+/-! ### explicit loop registers (`loop_register="R<i>"`) -/
+
+def isRegState {α : Type} : Except BuildError α → Bool
+  | .error .regState => true
+  | _ => false
+
+/-- `conn.loop_body(fn, 3, loop_register="R0")` at top level with a body that needs a temporary: the
+explicitly named register is taken into use, so the temporary of `Future.add` is R1 and R0 is written
+only by the loop's own `set` and `add` (the seeded change C14_2 puts the temporary into R0). -/
+theorem explicit_register_protected :
+    (match emit { Mem.init with arrLens := [3] }
+        (.loopBody (some 0) 0 3 1 (.addF (.lit 0 0) (.lit 1) none)) with
+      | .ok (_, cs) => cs.filterMap writeOf
+      | .error _ => []) = [R 0, R 1, R 1, R 0] := by
+  decide +kernel
+
+/-- an explicit loop register that is in use (here: R0 of the enclosing loop) is rejected, in both
+forms — it is never silently shared -/
+theorem explicit_register_in_use_rejected :
+    isRegState (emit Mem.init (.loop none 0 2 1 (.loopBody (some 0) 0 3 1 (.qop [] .newFut)))) = true ∧
+    isRegState (emit Mem.init (.loop none 0 2 1 (.loop (some 0) 0 3 1 (.qop [] .newFut)))) = true ∧
+    isOk (emit Mem.init (.loop none 0 2 1 (.loop (some 1) 0 3 1 (.qop [] .newFut)))) = true := by
   decide +kernel
 
 end NQ.C14
